@@ -116,13 +116,32 @@ impl<L: Language> RecExpr<L> {
 impl<L: Language> MultiPattern<L> {
     // "?a == pat, ?b == pat, ..."
     pub fn parse(s: &str) -> Result<Self, ParseError> {
+        // First read the text the way `Display` writes it: equations end at a comma that is followed by whitespace
+        // (or ends the text), the two sides are separated by a `==` that stands between whitespace.  Names (symbols,
+        // slots, pattern variables) may contain ',' and '=' themselves.  Otherwise every ',' and every "==" separates.
+        match Self::parse_impl(s, true) {
+            Ok(x) => Ok(x),
+            Err(_) => Self::parse_impl(s, false),
+        }
+    }
+
+    fn parse_impl(s: &str, as_displayed: bool) -> Result<Self, ParseError> {
         let mut out = Vec::new();
-        for x in s.split(",") {
+        let eqs: Vec<&str> = if as_displayed { split_before_whitespace(s, ",", false) } else { s.split(",").collect() };
+        for x in eqs {
             let x = x.trim();
             if x.is_empty() { continue }
 
             let err = || ParseError::TokenState(x.to_string());
-            let v: Box<[&str]> = x.split("==").collect();
+            let v: Box<[&str]> = if as_displayed {
+                let v = split_before_whitespace(x, "==", true);
+                if v.len() < 2 { return Err(err()) }
+                // the first separator counts, the right side may contain further ones
+                let l = v[0];
+                Box::new([l, &x[l.len() + 2..]])
+            } else {
+                x.split("==").collect()
+            };
             if v.len() != 2 { return Err(err()) }
             let var: Pattern<L> = Pattern::parse(v[0])?;
             let rhs: Pattern<L> = Pattern::parse(v[1])?;
@@ -137,6 +156,27 @@ impl<L: Language> MultiPattern<L> {
         }
         Ok(MultiPattern { pats: out })
     }
+}
+
+// splits `s` at the occurrences of `sep` that are followed by whitespace or end the text (and, if `after_whitespace`,
+// are also preceded by whitespace)
+fn split_before_whitespace<'a>(s: &'a str, sep: &str, after_whitespace: bool) -> Vec<&'a str> {
+    let mut out = Vec::new();
+    let mut start = 0;
+    let mut from = 0;
+    while let Some(i) = s[from..].find(sep) {
+        let i = from + i;
+        let end = i + sep.len();
+        let followed = s[end..].chars().next().map_or(true, |c| c.is_whitespace());
+        let preceded = !after_whitespace || s[..i].chars().last().map_or(false, |c| c.is_whitespace());
+        if followed && preceded {
+            out.push(&s[start..i]);
+            start = end;
+        }
+        from = end;
+    }
+    out.push(&s[start..]);
+    out
 }
 
 fn parse_pattern<L: Language>(tok: &[Token]) -> Result<(Pattern<L>, &[Token]), ParseError> {
